@@ -80,13 +80,18 @@ def imaging_case(aa, rng, kshapes=(1, 3, 5), kernel_kind=None, data_kind=None, s
     data = aa.Array2D(values=d.copy(), mask=mask)
     noise_map = aa.Array2D(values=noise.copy(), mask=mask)
     sub = int(rng.integers(1, sub_max + 1))
+    sub_arg = sub
     kw = {}
     if over_sampling:
-        kw["over_sampling"] = aa.OverSamplingDataset(pixelization=aa.OverSamplingUniform(sub_size=sub))
+        if rng.random() < 0.35:
+            # adaptive over sampling of the pixelization grid: one sub-size per image pixel (slim order)
+            sub = rng.integers(1, sub_max + 2, size=int((~m).sum())).astype(int)
+            sub_arg = aa.Array2D(values=sub.copy(), mask=mask)
+        kw["over_sampling"] = aa.OverSamplingDataset(pixelization=aa.OverSamplingUniform(sub_size=sub_arg))
     ds = aa.Imaging(data=data, noise_map=noise_map, psf=psf, use_normalized_psf=use_normalized_psf, **kw)
     k_used = k / k.sum() if use_normalized_psf else k
     return {"ds": ds, "mask": mask, "m": m, "k": k, "k_used": k_used, "kernel_kind": kind, "mask_family": fam, "d": d, "noise": noise,
-            "sub": sub, "ps": ps, "origin": origin, "data_kind": data_kind, "normalized": use_normalized_psf, "noise_scale": noise_scale}
+            "sub": sub, "sub_arg": sub_arg, "ps": ps, "origin": origin, "data_kind": data_kind, "normalized": use_normalized_psf, "noise_scale": noise_scale}
 
 
 def distort(rng, g, strength=0.25):
